@@ -389,6 +389,8 @@ def mk_input(m, op):
         return "CopyObjectInput", f
     if op == "delete_object":
         return "DeleteObjectInput", f
+    if op == "head_object":
+        return "HeadObjectInput", f
     if op == "delete_objects":
         objs = ListV([Struct("ObjectIdentifier", {"key": Term("key%d" % i)}) for i in range(2)])
         f.update(delete=Struct("Delete", {"objects": objs}))
@@ -906,11 +908,85 @@ def listings(prog):
     return findings, {"paths": len(paths), "checked": n_checked, "max_files": max_files, "queries": ex.queries}
 
 
+# ---- T: the visible effects of each operation are exactly the in-memory store's transition -----------------------------------------------------
+def transitions(prog):
+    """On every successful path the set of mutating effects on non-temporary paths is exactly what the store transition needs; reads and
+    listings have none; a failing get / head / delete / copy has none either."""
+    findings, stats = {}, {}
+    OBJ, META, INFO = "object_path(bucket,key)", "metadata_path(bucket,key,None())", "internal_info_path(bucket,key)"
+    SRC, SRCMETA = "object_path(src_bucket,src_key)", "metadata_path(src_bucket,src_key,None())"
+    allowed = {
+        "put_object": {("rename", OBJ), ("write_file", META), ("remove", META), ("write_file", INFO), ("mkdir", "parent(%s)" % OBJ), ("mkdir", OBJ)},
+        "copy_object": {("copy", OBJ), ("copy", META), ("remove", META), ("mkdir", "parent(%s)" % OBJ)},
+        "delete_object": {("remove", OBJ), ("remove", META), ("rmdir", OBJ)},
+        "get_object": set(), "head_object": set(), "list_objects_v2": set(),
+    }
+    required_ok = {"put_object": [("rename", OBJ), ("write_file", INFO)], "copy_object": [], "delete_object": []}
+    for op in ("put_object", "copy_object", "delete_object", "get_object", "head_object"):
+        if op == "get_object":
+            m = StoreModel(prog, op)
+            fn = prog.find_method("FileSystem", op)
+
+            def body(m, fn=fn):
+                m.reset()
+                inp = Struct("GetObjectInput", {"bucket": Term("bucket"), "key": Term("key"), "range": none()})
+                fs = Struct("FileSystem", {"root": Term("abs", "ROOT"), "tmp_file_counter": Struct("__Atomic", {})})
+                try:
+                    r = m.ex.call_fn(fn, [fs, Struct("S3Request", {"input": inp, "credentials": Term("opt_credentials")})], "s3", self_ty="FileSystem")
+                    return TupleV(["ret", r])
+                except rsx.PanicSig as p:
+                    return TupleV(["panic", json.dumps(p.what)])
+            m.root = body
+            paths = m.ex.explore(ROOT, [], "s3")
+        else:
+            m, paths = explore(prog, op)
+        n_ok = 0
+        for p in paths:
+            o, pay = outcome_of(p)
+            effs = []
+            for n, a, kw in p.events:
+                if n in C19sym.MUTATING:
+                    k = kw["keys"][C19sym.MUTATING[n]]
+                    if not C19sym.is_tmp(k):
+                        effs.append((n[3:], k))
+            if o == "ok":
+                n_ok += 1
+                extra = [e for e in effs if e not in allowed[op]]
+                if extra:
+                    findings.setdefault("transition:extra-effect:%s" % op, ("%s succeeds and also performs %s" % (op, extra[:3]), {"op": op}))
+                for need in required_ok.get(op, []):
+                    dir_object = ("mkdir", OBJ) in effs
+                    if need not in effs and not dir_object:
+                        findings.setdefault("transition:missing-effect:%s" % op, ("%s succeeds without %s of %s" % (op, need[0], C19sym.short(need[1])), {"op": op}))
+                if op == "copy_object" and not any(e == ("copy", OBJ) for e in effs):
+                    # a copy onto itself legitimately leaves the file alone: the path condition must then say source == destination
+                    ex = m.ex
+                    ex.solver.push()
+                    ex.solver.add(*p.pc)
+                    ex.solver.add(z3.Not(ex.eq(Term("object_path", Term("src_bucket"), Term("src_key")), Term("object_path", Term("bucket"), Term("key")))))
+                    if ex.solver.check() != z3.unsat:
+                        findings.setdefault("transition:missing-effect:copy_object", ("copy_object succeeds without copying the source onto a different destination", {"op": op}))
+                    ex.solver.pop()
+                if op == "copy_object":
+                    srcs = [kw["keys"][0] for n, a, kw in p.events if n == "fs.copy" and kw["keys"][1] == OBJ]
+                    if srcs and srcs[0] != SRC:
+                        findings.setdefault("transition:copy-source", ("copy_object copies %s, the request names %s" % (srcs[0], SRC), {"op": op}))
+                dir_key = any(n == "fs.read_dir" for n, a, kw in p.events)      # a key ending in '/': a directory object (outside the property)
+                if op == "delete_object" and not dir_key and not any(e[1] == OBJ for e in effs):
+                    findings.setdefault("transition:missing-effect:delete_object", ("delete_object succeeds without removing the object", {"op": op}))
+            elif op in ("get_object", "head_object", "delete_object", "copy_object") and effs and o in ("err", "panic"):
+                findings.setdefault("transition:effect-on-failure:%s" % op, ("%s fails (%s) after %s" % (op, pay, effs[:2]), {"op": op}))
+        stats[op] = {"paths": len(paths), "successful": n_ok}
+        if n_ok == 0:
+            raise Inconclusive("no successful path of %s" % op)
+    return findings, stats
+
+
 if __name__ == "__main__":
     prog = load_program()
     which = sys.argv[1] if len(sys.argv) > 1 else "R"
     t0 = time.time()
-    f, st = {"R": ranged_reads, "O": ownership, "S": side_files, "M": part_order, "V": verify_fn, "P": bucket_provenance, "L": listings}[which](prog)
+    f, st = {"R": ranged_reads, "O": ownership, "S": side_files, "M": part_order, "V": verify_fn, "P": bucket_provenance, "L": listings, "T": transitions}[which](prog)
     print(st, round(time.time() - t0, 1))
     for k, (w, sc) in f.items():
         print(k, "\n    ", w, "\n    ", json.dumps(sc)[:300])
